@@ -207,10 +207,11 @@ def search(res, tier, boost=False):
     from src.initial_potential import InitialOperator
     from src.mesh import MeshParametrized
     from src.single_layer import SingleLayerOperator
-    combos = [('Dirichlet', 'UnitSquare', 0), ('MildSingular', 'Circle', 0), ('Singular', 'UnitSquare', 0)]
+    combos = [('Dirichlet', 'UnitSquare', 0), ('MildSingular', 'Circle', 0), ('Smooth', 'UnitSquare', 0),
+              ('Singular', 'UnitSquare', 0)]
     if tier == 'thorough' or boost:
         combos += [('Dirichlet', 'LShape', 0), ('MildSingular', 'PiSquare', 0), ('Singular', 'LShape', 0),
-                   ('Smooth', 'UnitSquare', 0), ('Smooth', 'PiSquare', 0), ('Dirichlet', 'Circle', 1),
+                   ('Smooth', 'PiSquare', 0), ('Dirichlet', 'Circle', 1),
                    ('Singular', 'UnitSquare', 1), ('MildSingular', 'UnitSquare', 1)]
     tg, wtg = graded_both(8, 8, 0.25)
     xg, wxg = graded_both(8, 3, 0.2)   # evaluate() requires in-element points > 1e-5 away from the end points
@@ -223,6 +224,13 @@ def search(res, tier, boost=False):
         local += [('Singular', 'UnitSquare'), ('MildSingular', 'LShape'), ('Dirichlet', 'PiSquare')]
     for (p, d) in local:
         combos.append((p, d, 0, [rng.choice(['t', 't', 's']) for _ in range(rng.randint(2, 4))]))
+    # the driver (example.py) runs all problems against ONE cache directory per value of the straight-panel switch
+    import shutil
+    import tempfile
+    tmp = tempfile.mkdtemp(prefix='c03s_', dir='/tmp')
+    cache = {False: os.path.join(tmp, 'data'), True: os.path.join(tmp, 'data_exact')}
+    for d in cache.values():
+        os.makedirs(d)
     for problem, domain, unif, local_ops in combos:
         gamma = make_curve(domain)
         with contextlib.redirect_stdout(io.StringIO()):
@@ -244,12 +252,13 @@ def search(res, tier, boost=False):
         xlevels = sorted({float(x) for e in elems for x in e.space_interval})
         for pw in ((False, True) if domain != 'Circle' else (False, )):
             with contextlib.redirect_stdout(io.StringIO()):
-                SL = SingleLayerOperator(mesh, pw_exact=pw)
+                SL = SingleLayerOperator(mesh, pw_exact=pw, cache_dir=cache[pw])
                 mat = SL.bilform_matrix(elems, elems)
                 rhs = np.zeros(len(elems))
                 M0u0 = g = None
                 if 'u0' in data:
-                    M0 = InitialOperator(bdr_mesh=mesh, u0=data['u0'], initial_mesh=init)
+                    M0 = InitialOperator(bdr_mesh=mesh, u0=data['u0'], initial_mesh=init, cache_dir=cache[pw],
+                                         problem=problem)
                     rhs = -M0.linform_vector(elems=elems)
                     M0u0 = data['M0u0']
                 if 'g' in data:
@@ -279,5 +288,8 @@ def search(res, tier, boost=False):
                 if abs(mean) > 5e-5 * l1 + 1e-12:
                     res.violation('C03:residual-mean-nonzero:%s:%s' % (problem, domain),
                                   dict(problem=problem, domain=domain, uniform_refinements=unif, local_refinements=local_ops,
-                                       pw_exact=pw, element=i, elem=dict(t=[ta, tb], x=[xa, xb]), mean=mean, int_abs=l1))
+                                       pw_exact=pw, element=i, elem=dict(t=[ta, tb], x=[xa, xb]), mean=mean, int_abs=l1,
+                                       history='problems solved so far against one cache directory per pw_exact (as '
+                                       'example.py does): %s' % [c[:3] for c in combos[:combos.index((problem, domain, unif, local_ops)) + 1]]))
+    shutil.rmtree(tmp, ignore_errors=True)
     res.notes['worst_mean_over_l1'] = worst
